@@ -69,6 +69,23 @@ def fragment_s_tie(ctx, dis, stats, names):
     stats["fragment_S_tie"] = dict(r["stats"], cases=r["cases"], disagreements=len(r["disagreements"]))
 
 
+def shape_map_cases(ctx, n, label):
+    """the shape-map family of C10 (selection, shapes, exact figures for the selection) on a few cases: C01 and C02 also hold when the
+    nodes are selected by a shape map -> (violations, disagreements, stats)"""
+    import random, tempfile, shutil
+    from props import c10
+    tmp = tempfile.mkdtemp(prefix="verif_sm_")
+    st = {"selector_kinds": {}, "syntax": {}, "delivery": {}, "mixed_mode": 0, "items": 0, "ghost_nodes": 0}
+    v, d = [], []
+    try:
+        c10.shape_map_family(ctx, random.Random(ctx.seed * 31337 + len(label)), n, F.load("C10"), tmp, st, v, d, set())
+    finally:
+        shutil.rmtree(tmp, ignore_errors=True)
+    for x in v:
+        x["what"] = "%s with shape-map targets: %s" % (label, x["what"])
+    return v, d, st
+
+
 def known_lines(kf, reproduced):
     out = []
     for f in kf:
